@@ -238,6 +238,44 @@ def gen_tie_case(rng: random.Random, n: int):
     return conds, queries
 
 
+def gen_chain_case(rng: random.Random, n: int):
+    """exception chain s_m < ... < s_1 < c with alternating property f: (f|c), (!f|s_1), (c|s_1), (f|s_2), (s_1|s_2) ...
+    gives m + 1 tolerance layers (m = n - 2); returns (conds, queries)"""
+    atoms = list(range(n))
+    rng.shuffle(atoms)
+    c, f = ("a", atoms[0]), ("a", atoms[1])
+    subs = [("a", a) for a in atoms[2:]]
+    if len(subs) > 3:
+        subs = subs[:rng.randint(2, 3)] if rng.random() < 0.7 else subs
+    pos = rng.random() < 0.8
+    conds = [(f if pos else ("!", f), c)]
+    prev = c
+    for i, s in enumerate(subs):
+        sign = pos if i % 2 else not pos
+        conds.append((f if sign else ("!", f), s))
+        conds.append((prev, s))
+        prev = s
+    if rng.random() < 0.3:
+        conds.append(gen_cond(rng, n, 1, 0.0))
+    rng.shuffle(conds)
+    lits = [c, f] + subs
+    queries = []
+    for _ in range(6):
+        r = rng.random()
+        x = rng.choice(lits)
+        x = x if rng.random() < 0.6 else ("!", x)
+        if r < 0.25:
+            queries.append((x, ("T",)))
+        elif r < 0.6:
+            queries.append((x, rng.choice(subs[-2:] if subs else [c])))
+        elif r < 0.8:
+            a1, a2 = rng.sample(lits, 2)
+            queries.append((x, ("&", a1, a2) if rng.random() < 0.6 else ("|", a1, a2)))
+        else:
+            queries.append(gen_cond(rng, n, 2, 0.0))
+    return conds, queries
+
+
 # --------------------------------------------------------------------------------------
 # brute-force helpers used only to *classify* inputs for the evidence (never a verdict)
 # --------------------------------------------------------------------------------------
